@@ -27,18 +27,43 @@ open VgiVerif.Sched
 
 /-! ## (b) the accept loop -/
 
-/-- the two repairs, as extracted from the source -/
+/-- the stale-callback test of `_close_listener_if_idle(fired)`, and WHAT `fired` is bound to -/
+inductive CbCheck where
+  | none                      -- no test: every fired callback acts
+  | own                       -- `if timer is not fired: return` where `fired` is the callback's OWN timer, bound when it was armed
+                              -- (`armed = Timer(…, lambda: cb(armed)); timer = armed`: `armed` is a fresh cell per arming)
+  | late (noneStale : Bool)   -- the argument is the shared variable `timer` itself, read WHEN THE TIMER FIRES (late-binding
+                              -- closure `lambda: cb(timer)`): `timer is not fired` compares the variable with itself; the
+                              -- test can only reject through an explicit `fired is None or …` (`noneStale`)
+deriving Repr, DecidableEq
+
+/-- the callback of timer `k` finds itself stale; `arg` is what its argument evaluated to when the timer thread CALLED the
+callback (for a late-bound closure: the value of the shared `timer` variable at that moment, read without the lock) -/
+def CbCheck.stale (c : CbCheck) (timer : Option Nat) (k : Nat) (arg : Option Nat) : Bool :=
+  match c with
+  | .none => false
+  | .own => timer != some k
+  | .late ns => (ns && arg.isNone) || timer != arg
+
+/-- the extractor's code: 0 no test, 1 own identity, 2 late-bound with `is None` guard, 3 late-bound without -/
+def CbCheck.ofCode : Nat → CbCheck
+  | 1 => .own
+  | 2 => .late true
+  | 3 => .late false
+  | _ => .none
+
+/-- the repairs and the registration site, as extracted from the source -/
 structure Shape where
   clearOnAccept : Bool    -- `shutdown_requested = False` in the accept critical section
-  checkCurrent : Bool     -- the timer callback returns at once unless `timer is` the timer that fired
+  cbCheck : CbCheck       -- the stale-callback test of the timer callback
   regInHandler : Bool     -- WHERE a connection is counted (`conn_count += 1; _cancel_timer_locked() [; clear]`): `false` = in
                           -- the accept loop before the connection's thread exists, `true` = first thing in that thread
 deriving Repr, DecidableEq
 
 def Shape.extracted : Shape :=
-  ⟨Gen.C33.clearsFlagOnAccept, Gen.C33.callbackChecksCurrent, Gen.C33.registersInHandler⟩
-def Shape.pinned : Shape := ⟨false, false, false⟩
-def Shape.repaired : Shape := ⟨true, true, false⟩
+  ⟨Gen.C33.clearsFlagOnAccept, CbCheck.ofCode Gen.C33.callbackCheck, Gen.C33.registersInHandler⟩
+def Shape.pinned : Shape := ⟨false, .none, false⟩
+def Shape.repaired : Shape := ⟨true, .own, false⟩
 
 structure Cfg where
   idle : Option Nat     -- `idle_timeout` (`None` = never self-terminate)
@@ -81,6 +106,7 @@ structure St where
   tstate : Nat → Timer := fun _ => .idle
   deadline : Nat → Nat := fun _ => 0
   cbDone : Nat → Bool := fun _ => false  -- the callback of timer k has run
+  cbArg : Nat → Option (Option Nat) := fun _ => none  -- timer k's thread has called its callback: what a late-bound argument read
   nextTimer : Nat := 0
   sem : Sem := ⟨0, []⟩
   -- ghost
@@ -106,6 +132,7 @@ inductive Label where
   | semRel (c : Conn)
   | handlerEnd (c : Conn) (armed : Bool) -- `with state_lock: conn_count -= 1; if conn_count == 0 and idle_timeout: arm; discard`
   | fire (k : Nat)                       -- timer k: interval elapsed un-cancelled → the callback is pending
+  | cbRead (k : Nat)                     -- timer k's thread calls `self.function()`: the lambda evaluates its argument (no lock)
   | callback (k : Nat)                   -- `_close_listener_if_idle` critical section
   | vars (cc : Nat) (tm : Option Nat) (fl : Bool)   -- observation of the real closure variables
 deriving Repr, DecidableEq
@@ -212,10 +239,15 @@ def step (sh : Shape) (cfg : Cfg) (s : St) : Label → Option St
     match (s.tstate k).fire with
     | some t' => if s.deadline k ≤ s.now then some { s with tstate := upd s.tstate k t' } else none
     | none => none
+  | .cbRead k =>
+    if s.tstate k = .fired ∧ s.cbArg k = none then some { s with cbArg := upd s.cbArg k (some s.timer) } else none
   | .callback k =>
+    match s.cbArg k with
+    | none => none
+    | some arg =>
     if s.tstate k = .fired ∧ s.cbDone k = false then
       let s1 : St := { s with cbDone := upd s.cbDone k true }
-      if sh.checkCurrent ∧ s.timer ≠ some k then some s1
+      if sh.cbCheck.stale s.timer k arg then some s1
       else if s.connCount ≠ 0 then some { s1 with timer := none }
       else some { s1 with timer := none, flag := true, sinceDec := false }
     else none
@@ -244,9 +276,15 @@ structure LShape where
   /-- extracted start-up order of `serve_unix`: `sock.listen()` comes before the `on_bound(path)` announcement (the
   launcher's `_spawn_worker` returns when it reads that announcement) -/
   listenFirst : Bool
+  /-- the lock file of a launch is named after its SOCKET in the socket's own directory (`<sock>.lock` next to an explicit
+  socket path; `<hash>.lock` next to `<hash>.sock`), so every spelling of the socket's path — symlinked directory, `..`
+  segments, relative — reaches the same lock inode.  `false`: the lock file is derived from the path STRING; launches of
+  one socket under different spellings then hold different locks and do not exclude each other -/
+  lockBySocket : Bool
 deriving Repr, DecidableEq
 
-def LShape.extracted : LShape := ⟨Gen.C33.filelockChecksNlink, Gen.C33.listenBeforeAnnounce⟩
+def LShape.extracted : LShape :=
+  ⟨Gen.C33.filelockChecksNlink, Gen.C33.listenBeforeAnnounce, Gen.C33.lockKeyedBySocket⟩
 
 namespace Launch
 
@@ -392,7 +430,10 @@ def step (sh : LShape) (idle : Nat) (s : St) : Label → Option St
   | .lockFlock t ok =>
     match s.pc t with
     | .opened r g =>
-      if ok then (if s.held g = none then some { s with held := upd s.held g (some t), pc := upd s.pc t (.flocked r g) } else none)
+      if ok then
+        -- a launcher that came by another spelling of the socket path may hold "the" lock on a different file
+        (if s.held g = none ∨ sh.lockBySocket = false
+         then some { s with held := upd s.held g (some t), pc := upd s.pc t (.flocked r g) } else none)
       else (if s.held g = none then none else
         -- contention: the launcher polls again, the GC's zero-timeout lock gives up (`Timeout` → skipped)
         some { s with pc := upd s.pc t (match r with | .launch => .opening .launch | .gc => .gDone) })
